@@ -1,7 +1,59 @@
 import GoawkModel.Basic
-/-! Line-protocol handler for property C08: one request line (already split into words, without the leading `c08`) → one answer line. -/
+import GoawkModel.C08
+import GoawkModel.C08Scan
+/-!
+Line-protocol handler for property C08 (bytes in hex, `-` = empty):
+* `read <sep> <comment> <header:0|1> <data>`   → `ok <hdr> <rec>*` with `<hdr>` = `H` + fields joined by `,` or `none`,
+  `<rec>` = fields joined by `,` + `|` + `$0`  (the specification reader `csvRecords`)
+* `scan <sep> <comment> <header:0|1> <eofWithLastChunk:0|1> <chunk>*` → same answer format, from the scanner model
+  (`csvScanAll`: `csvSplitter.scan` driven by the `bufio.Scanner` loop over that delivery schedule)
+* `write <sep> <field>*`                      → `ok <bytes>`      (`csvWrite`)
+* `join <sep> <field>*`                       → `ok <bytes>`      (`joinFields`)
+* `reparse <sep> <comment> <line>`            → `ok <fields joined by ,>` / `ok none` for no fields
+-/
 namespace GoawkModel.Drv.C08
+open GoawkModel GoawkModel.C08
 
-def handle (_args : List String) : String := "unimplemented"
+def renderFields (fs : List Bytes) : String := String.intercalate "," (fs.map toHex)
+
+def renderRec (r : List Bytes × Bytes) : String := renderFields r.1 ++ "|" ++ toHex r.2
+
+def renderRecs (hdr : Option (List Bytes)) (rs : List (List Bytes × Bytes)) : String :=
+  let h := match hdr with
+    | some fs => "H" ++ renderFields fs
+    | none => "none"
+  String.intercalate " " ("ok" :: h :: rs.map renderRec)
+
+def handle (args : List String) : String :=
+  match args with
+  | ["read", sep, comment, header, data] =>
+    match fromHex sep, fromHex comment, fromHex data with
+    | some sep, some comment, some data =>
+      let cfg : Cfg := { sep := sep, comment := comment, header := header == "1" }
+      renderRecs (csvHeader cfg data) (csvRecords cfg data)
+    | _, _, _ => "bad-hex"
+  | "scan" :: sep :: comment :: header :: eofWith :: chunks =>
+    match fromHex sep, fromHex comment, chunks.mapM fromHex with
+    | some sep, some comment, some cs =>
+      let cfg : Cfg := { sep := sep, comment := comment, header := header == "1" }
+      let out := csvScanAll cfg (eofWith == "1") (cs.filter (· ≠ []))
+      renderRecs out.names out.recs
+    | _, _, _ => "bad-hex"
+  | "write" :: sep :: fields =>
+    match fromHex sep, fields.mapM fromHex with
+    | some sep, some fs => "ok " ++ toHex (csvWrite sep fs)
+    | _, _ => "bad-hex"
+  | "join" :: sep :: fields =>
+    match fromHex sep, fields.mapM fromHex with
+    | some sep, some fs => "ok " ++ toHex (joinFields sep fs)
+    | _, _ => "bad-hex"
+  | ["reparse", sep, comment, line] =>
+    match fromHex sep, fromHex comment, fromHex line with
+    | some sep, some comment, some line =>
+      match reparse { sep := sep, comment := comment } line with
+      | [] => "ok none"
+      | fs => "ok " ++ renderFields fs
+    | _, _, _ => "bad-hex"
+  | _ => "bad-request"
 
 end GoawkModel.Drv.C08
